@@ -55,7 +55,32 @@ SKIP = {"valida.schema:_TestDataSchema.__init__", "valida.schema:_TestDataSchema
         "valida.schema:_TestDataSchema.data_and_schema", "valida.schema:Schema.from_yaml_file",
         "valida.datapath:validate_rule_paths", "valida.datapath:resolve_implicit_types",
         "valida.rules:RuleTest.print_failures", "valida.schema:ValidatedData.print_failures"}
-SERVES = ["C08", "C16", "C02", "C18"]
+def serves_of(qn):
+    """C08 takes the whole cone; the other properties the functions their own frame clause is about."""
+    out = ["C08"]
+    name = qn.split(":")[1]
+    mod = qn.split(":")[0]
+    if any(k in name for k in ("from_spec", "from_json_like", "from_part_specs", "init_rules", "from_yaml", "from_str",
+                               "get_func_args_by_kind", "_data_path_args")) or name.endswith("__init__") and "Rule." in name:
+        out.append("C16")
+    if mod == "valida.conditions" and any(k in name for k in ("ConditionBinaryOp", "ConditionAnd", "ConditionOr", "ConditionXor",
+                                                              "__and__", "__or__", "__xor__", "flatten", "is_like")) \
+            or name in ("null_condition_binary_check", "get_container_value_condition") or name.endswith(".filter") and mod == "valida.datapath":
+        out.append("C02")
+    if name in ("Schema.validate", "Schema.__init__", "Schema.__len__", "Rule.test", "Rule.__init__") or name.startswith(
+            ("ValidatedData.", "RuleTest.", "RuleTestFailureItem.")):
+        out.append("C06")
+    if name in ("Schema.add_schema", "Schema.__init__", "Rule.__init__", "DataPath.__init__") or "truediv" in name:
+        out.append("C18")
+    if (mod in ("valida.rules", "valida.data") or name.startswith("ValidatedData.")) and not any(
+            k in name for k in ("from_spec", "from_json_like", "to_json_like")):
+        out.append("C15")
+    if "PreparedConditionCallable" in name or name in ("Condition._filter", "ConditionBinaryOp._filter", "RuleTest._test", "RuleTest.__init__"):
+        out.append("C17")
+    return out
+
+
+SERVES = ["C08"]
 
 # assumed facts about results (not checked by the frame-only verification of the function itself; listed in the evidence)
 RESULT_FACTS = {
@@ -104,7 +129,7 @@ for _mod in (valida.utils, valida.casting, valida.data, valida.conditions, valid
             _params[_argnames[0]] = Const(_cls)
         for _a in _argnames:
             _params.setdefault(_a, Opaque())
-        _c = contract(_qn + "#frame", params=_params, modifies=_mods, raises_any=True, frame_only=True, serves=SERVES,
+        _c = contract(_qn + "#frame", params=_params, modifies=_mods, raises_any=True, frame_only=True, serves=serves_of(_qn),
                       note="frame only")
         _c.modifies_when = _when
         _c.func_obj = _f
